@@ -90,17 +90,23 @@ class SMGen(Gen):
 
                     _levels.append([l.name,pred,arg_names,l._weight])
             else:
-                # For now, implement weighting for a non-derived factor by duplicating levels
+                # For now, implement weighting for a non-derived factor by duplicating levels;
+                # a minimum-trials scale only has an effect on a factor that is in the crossing
+                scale = scale_one if f in crossing else 1
                 for l in levels:
-                    for i in range(scale_one * l._weight):
+                    for i in range(scale * l._weight):
                         _levels.append(l.name)
-                scale_one = 1
+                if f in crossing:
+                    scale_one = 1
 
             if d_type==None:
                 primary.append([name,_levels])
             else:
                 derived.append([name,_levels,d_type])
 
+
+        if scale_one > 1:
+            _cexit("MinimumTrials is not supported by SMGen when no non-derived factor is in the crossing.")
 
         for fp in primary:
             p_dc[fp[0]]=_Factor(fp[0],fp[1])
